@@ -185,7 +185,28 @@ fn drain_jobs(len: usize, depth: usize) -> Vec<(Vec<Call>, Term)> {
     out
 }
 
+/// A short list of consumption patterns for long lines (the full enumeration is exponential in the line length).
+fn wide_jobs(len: usize) -> Vec<(Vec<Call>, Term)> {
+    let mut out: Vec<(Vec<Call>, Term)> = vec![(Vec::new(), Term::None)];
+    out.push((vec![Call::Next], Term::None));
+    out.push((vec![Call::NextBack], Term::None));
+    out.push((vec![Call::Next, Call::NextBack, Call::Next], Term::None));
+    out.push((vec![Call::Next; len + 1], Term::None));
+    out.push((vec![Call::NextBack; len + 1], Term::None));
+    out.push(((0..len + 2).map(|i| if i % 2 == 0 { Call::Next } else { Call::NextBack }).collect(), Term::None));
+    out.push((vec![Call::Nth(len / 2), Call::NthBack(len / 4)], Term::None));
+    for t in [Term::Count, Term::Last, Term::Fold, Term::Rfold, Term::Collect, Term::RevSkip, Term::SkipStep] {
+        out.push((Vec::new(), t));
+        out.push((vec![Call::Next, Call::NextBack], t));
+    }
+    out
+}
+
 fn run_shape<E: Elem>(c: usize, r: usize, ctx: &mut Ctx) {
+    run_shape_with::<E>(c, r, false, ctx)
+}
+
+fn run_shape_with<E: Elem>(c: usize, r: usize, wide: bool, ctx: &mut Ctx) {
     let labels: Vec<u32> = if E::ZST { vec![0; c * r] } else { (0..(c * r) as u32).collect() };
     for op in ["remove_row", "pop_row", "remove_col", "pop_col"] {
         let row = op.ends_with("row");
@@ -195,7 +216,17 @@ fn run_shape<E: Elem>(c: usize, r: usize, ctx: &mut Ctx) {
         for &i in &indices {
             let in_range = i < dim;
             let depth = if ctx.tier == Tier::Quick { 3 } else { 4 };
-            let jobs: Vec<(Vec<Call>, Term)> = if in_range { drain_jobs(line_len, depth) } else { vec![(Vec::new(), Term::None)] };
+            let jobs: Vec<(Vec<Call>, Term)> = if !in_range {
+                vec![(Vec::new(), Term::None)]
+            } else if wide {
+                wide_jobs(line_len)
+            } else {
+                drain_jobs(line_len, depth)
+            };
+            if wide && !pop && i != 0 && i != dim / 2 && i + 1 < dim {
+                // long lines: the first, a middle, the last and the out-of-range index
+                continue;
+            }
             for spare in [false, true] {
                 for (seq, term) in &jobs {
                     let term = *term;
@@ -204,7 +235,8 @@ fn run_shape<E: Elem>(c: usize, r: usize, ctx: &mut Ctx) {
                             format!("TooDee<{}> {}x{} {} {}({}) then drain calls [{}], drop", E::NAME, c, r, if spare { "spare" } else { "exact" }, op, if pop { String::new() } else { i.to_string() }, enc_seq(seq, term))
                         },
                         |cs| {
-                            let mut t: TooDee<E> = materialize(c, r, &labels, spare);
+                            // for long lines "spare" means room for a whole line and more
+                            let mut t: TooDee<E> = if wide && spare { super::array_bfs::materialize_spare(c, r, &labels, c.max(r) + 8) } else { materialize(c, r, &labels, spare) };
                             let ids_before: Vec<Option<u64>> = t.data().iter().map(|e| e.ident()).collect();
                             let mut m: Model<u32> = Model::from_flat(c, r, &labels);
                             let mut idm: Model<Option<u64>> = Model::from_flat(c, r, &ids_before);
@@ -446,6 +478,11 @@ impl Prop for C07P {
                 v.push(format!("{} {}x{}", tag, c, r));
             }
         }
+        // lines wider than 256 bytes (the stack buffer of slice::rotate) and than the block sizes of chunked loops
+        for (c, r) in [(70usize, 3usize), (3, 70), (12, 4), (4, 12), (33, 2)] {
+            v.push(format!("WU {}x{}", c, r));
+            v.push(format!("WT {}x{}", c, r));
+        }
         if tier == Tier::Thorough {
             // arrays of () with close to usize::MAX cells: thorough tier only, because they assume that
             // appending / removing the last line does not take time proportional to the cell count
@@ -462,6 +499,8 @@ impl Prop for C07P {
         let (c, r) = dims.split_once('x').unwrap();
         let (c, r): (usize, usize) = (c.parse().unwrap(), r.parse().unwrap());
         match tag {
+            "WU" => run_shape_with::<u32>(c, r, true, ctx),
+            "WT" => run_shape_with::<Tracked>(c, r, true, ctx),
             "U" => run_shape::<u32>(c, r, ctx),
             "Z" => run_shape::<crate::engine::ledger::TrackedZst>(c, r, ctx),
             _ => run_shape::<Tracked>(c, r, ctx),
@@ -472,7 +511,7 @@ impl Prop for C07P {
         true
     }
     fn rule(&self) -> String {
-        "(arrays of () with usize::MAX, MAX-1, MAX/3 x 3, ... cells are additionally run through the removal of their last row / column and through out-of-range removals) every shape (0..=N)^2 x {remove_row(i), remove_col(i) : i in 0..=dim} + pop_row + pop_col (also on the empty array) x element type {u32, Tracked, a zero-sized type with a destructor (counted)} x {exact, spare} capacity x EVERY sequence over {next, next_back} of length 0..=len+1 (all interleavings, including one call past exhaustion) plus every sequence up to depth 3 (thorough: 4) over the extended alphabet {next, next_back, nth(1), nth_back(1), nth(2), nth_back(len)} with every prefix closed by count / last / fold / rfold / for_each / rev-then-forward (the adaptors skip, step_by and rev are built on these), with len() and size_hint() observed after every call, then the drain is dropped. \
+        "(arrays of () with usize::MAX, MAX-1, MAX/3 x 3, ... cells are additionally run through the removal of their last row / column and through out-of-range removals) every shape (0..=N)^2 x {remove_row(i), remove_col(i) : i in 0..=dim} + pop_row + pop_col (also on the empty array) x element type {u32, Tracked, a zero-sized type with a destructor (counted)} x {exact, spare} capacity (plus lines of 12, 33 and 70 cells - wider than 256 bytes - with room for a whole further line, under a short list of consumption patterns) x EVERY sequence over {next, next_back} of length 0..=len+1 (all interleavings, including one call past exhaustion) plus every sequence up to depth 3 (thorough: 4) over the extended alphabet {next, next_back, nth(1), nth_back(1), nth(2), nth_back(len)} with every prefix closed by count / last / fold / rfold / for_each / rev-then-forward (the adaptors skip, step_by and rev are built on these), with len() and size_hint() observed after every call, then the drain is dropped. \
          Oracle: each call's result equals the ideal double-ended sequence of the removed line (by label and by element identity); len()/size_hint() exact at every step; after the drop the array equals the model without that line (same elements, same relative positions), (0,0) if it was the last line; ledger: yielded elements stay alive while held, the rest of the line is dropped exactly once, nothing else; out-of-range index panics and leaves the array untouched; pop on empty returns None; guard allocator clean. \
          states = distinct (shape, op, index, front/back cursor) positions of the ideal sequence reached; transitions = drain calls; traces_validated_against_impl = drain lifetimes executed on the real code."
             .into()
